@@ -15,13 +15,15 @@ def two_chrom_graph(blocks1=("snp", "link", "insertion"), blocks2=("deletion",),
     return gen.merge_graphs([c1.g, c2.g]), c1, c2
 
 
-def tag_by_model(g, chains, with_untagged=True, bo_start=0):
+def tag_by_model(g, chains, with_untagged=True, bo_start=0, restart_per_chain=False):
     """hand-tagged copy: BO increasing along each chain (chr1 then chr2), NO by sorted id; optionally an extra node
     carrying BO = NO = -1 (what an untagged node looks like to sort) hanging off the last scaffold of chr1."""
     out = rgfa.Graph()
     bo = bo_start
     tags = {}
     for ch in chains:
+        if restart_per_chain:
+            bo = bo_start  # chromosomes ordered separately and concatenated: their BO ranges overlap
         for kind, x in ch.order:
             if kind == "s":
                 tags[x] = (bo, 0)
@@ -40,7 +42,7 @@ def tag_by_model(g, chains, with_untagged=True, bo_start=0):
         out.add_link(last_scaffold, "+", "u1", "+", "0M")
         out.add_link("u1", "+", [x for k, x in first_chain.order if k == "s"][0], "+", "0M")  # a walk may also START in the untagged node
         # a reference (rank-0) contig that was left out of the chromosome order: its node is untagged
-        out.add_seg("ebv1", "ACGTACGTAC", [("LN", "i", "10"), ("SN", "Z", "chrEBV"), ("SO", "i", "0"), ("SR", "i", "0"), ("BO", "i", "-1"), ("NO", "i", "-1")])
+        out.add_seg("ebv1", "ACGTACGTAC", [("LN", "i", "10"), ("SN", "Z", "007"), ("SO", "i", "0"), ("SR", "i", "0"), ("BO", "i", "-1"), ("NO", "i", "-1")])
         # a node order beyond 16 bits (a bubble with very many alleles), in the first bubble of chr1
         first_bubble = [x for k, x in first_chain.order if k == "b" and len(x) >= 2]
         if first_bubble:
